@@ -40,6 +40,7 @@ def tbl (ws : List String) : String :=
   | ["clsunk", "req"] => toString (MessageClass.toU8 (.Request .UnKnown))
   | ["clsunk", "resp"] => toString (MessageClass.toU8 (.Response .UnKnown))
   | ["fmt", b] => hexOfChars (fmtCode (nat! b))
+  | ["fmtspec", _, b] => hexOfChars (fmtCode (nat! b))
   | ["parse", h] => match parseCode (charsOfHex h) with
       | .ok c => toString (MessageClass.toU8 (MessageClass.ofU8 c))
       | _ => "panic"
